@@ -3,7 +3,7 @@ from __future__ import annotations
 
 import ast
 
-from .. import astu, types
+from .. import evid, astu, types
 from ..cfg import cfg_of
 from ..model import AnalysisError
 from ..report import key_of
@@ -20,9 +20,36 @@ def _is_identity_lambda(n):
   return isinstance(n, ast.Lambda) and len(n.args.args) == 1 and isinstance(n.body, ast.Name) and n.body.id == n.args.args[0].arg
 
 
+_MOD = {}
+
+
+def _copier_helper(fn_node, depth=0):
+  """A same-module helper whose every return value is a freshly built copy of its first parameter (never the parameter itself)."""
+  ps = astu.params(fn_node)
+  if not ps or depth > 2:
+    return False
+  p = ps[0]
+  rets = [n.value for n in astu.body_walk(fn_node) if isinstance(n, ast.Return)]
+  if not rets:
+    return False
+  for v in rets:
+    if isinstance(v, (ast.Dict, ast.DictComp)):
+      continue
+    if isinstance(v, ast.Call) and any(_is_copy_call(v, a) for a in v.args):
+      continue
+    return False
+  for n in astu.body_walk(fn_node):
+    if isinstance(n, (ast.Attribute, ast.Subscript)) and isinstance(n.ctx, ast.Store):
+      return False
+  return True
+
+
 def _is_copy_call(call, arg):
-  """`dict(arg)` or `jax.tree_util.tree_map(lambda y: y, arg)`."""
+  """`dict(arg)`, `jax.tree_util.tree_map(lambda y: y, arg)` or a same-module helper that does exactly that."""
   name = astu.call_name(call) or ''
+  mod = _MOD.get('fd')
+  if mod is not None and name in mod._funcs and call.args and call.args[0] is arg and _copier_helper(mod._funcs[name].node):
+    return True
   if name in COPIERS and call.args and call.args[0] is arg:
     return True
   if name.split('.')[-1] == 'tree_map' and len(call.args) >= 2 and _is_identity_lambda(call.args[0]) and arg in call.args[1:]:
@@ -60,6 +87,7 @@ def _readonly_helper(fn):
 @rule('C15.R1', 'K3', 12, 'the private dict of a FrozenDict never escapes un-copied')
 def r1(R, repo):
   mod = repo.mod(FD)
+  _MOD['fd'] = mod
   reads = _dict_reads(mod)
   R.require(len(reads) >= 8, 'fewer ._dict reads than expected (%d)' % len(reads))
   for f, n in reads:
@@ -85,7 +113,10 @@ def r1(R, repo):
       if isinstance(callee, Func) and callee.mod is mod and callee.qual.startswith(f.qual + '.') and _readonly_helper(callee.node):
         R.ok(key, where, 'passed to read-only nested helper %s' % callee.name)
         continue
-      R.fail(key, where, 'the private dict is passed to `%s`, which may keep or return it' % astu.short(par.func))
+      if isinstance(callee, Func) and callee.mod is mod and _readonly_helper(callee.node):
+        R.ok(key, where, 'passed to read-only helper %s' % callee.name)
+        continue
+      R.unsure(key, where, 'the private dict is passed to `%s`, which may keep or return it' % astu.short(par.func))
       continue
     if isinstance(par, ast.Return) and par.value is n:
       if f.qual == '_prepare_freeze':
@@ -94,7 +125,7 @@ def r1(R, repo):
         ok = all(g.qual in ('FrozenDict.__init__', '_prepare_freeze') for g, _ in callers)
         ext = [(m.rel, g.qual) for m in repo.mods_with('_prepare_freeze') if m is not mod for g in m.funcs.values()
                for c in astu.func_calls(g) if (astu.call_tail(c) == '_prepare_freeze')]
-        R.check(ok and not ext, key, where, '_prepare_freeze hands out a FrozenDict\'s private dict; it may only be called by FrozenDict.__init__ '
+        R.check(ok and not ext, key, where, evidence=True, msg_fail='_prepare_freeze hands out a FrozenDict\'s private dict; it may only be called by FrozenDict.__init__ '
                 'and itself, found callers %s' % ([g.qual for g, _ in callers] + ext))
         continue
       R.fail(key, where, 'the private dict is returned as is')
@@ -104,10 +135,12 @@ def r1(R, repo):
       ok, msg = _element_read_ok(f, par)
       if ok:
         R.ok(key, where, msg)
+      elif ok is None:
+        R.unsure(key_of(f, 'element of the private dict escapes', astu.short(astu.enclosing_stmt(n), 70)), where, msg)
       else:
         R.fail(key_of(f, 'element of the private dict escapes', astu.short(astu.enclosing_stmt(n), 70)), where, msg)
       continue
-    R.fail(key, where, 'unclassified use of the private dict: `%s`' % astu.short(astu.enclosing_stmt(n)))
+    R.unsure(key, where, 'unclassified use of the private dict: `%s`' % astu.short(astu.enclosing_stmt(n)))
   # the skip-copy constructor flag may only be used by tree_unflatten
   for m in repo.mods_with('__unsafe_skip_copy__'):
     for f in m.funcs.values():
@@ -137,10 +170,11 @@ def _element_read_ok(f, sub):
           nodes = c.nodes_of_stmt(par)
           if all(c.edge_guarded(x, tests[0], 'F' if astu.isinstance_test_pol(tests[0].ast, v)[2] else 'T') for x in nodes):
             continue
-        return False, 'element `%s` of the private dict reaches `%s` without being wrapped/copied when it is a nested dict' % (
+        return (False if isinstance(par, (ast.Return, ast.Yield, ast.Tuple)) else None), 'element `%s` of the private dict reaches `%s` without being wrapped/copied when it is a nested dict' % (
             v, astu.short(astu.enclosing_stmt(n)))
     return True, 'element returned only as FrozenDict(v) when it is a dict'
-  return False, ('`%s` hands elements of the private dict (possibly nested mutable dicts) to the caller un-wrapped' % astu.short(st, 100))
+  esc = any(isinstance(a_, (ast.Return, ast.Yield)) for a_ in astu.ancestors(sub)) and not any(isinstance(a_, ast.Call) and astu.call_name(a_) in ('FrozenDict', 'freeze', 'isinstance', 'hash', 'repr', 'len') for a_ in astu.ancestors(sub))
+  return (False if esc else None), ('`%s` hands elements of the private dict (possibly nested mutable dicts) to the caller un-wrapped' % astu.short(st, 100))
 
 
 @rule('C15.R2', 'K3', 7, 'FrozenDict has no mutator and its fields are written only at construction')
@@ -148,18 +182,18 @@ def r2(R, repo):
   mod = repo.mod(FD)
   cls = mod.cls('FrozenDict')
   slots = [st for st in cls.body if isinstance(st, ast.Assign) and astu.src(st.targets[0]) == '__slots__']
-  R.check(len(slots) == 1 and sorted(ast.literal_eval(slots[0].value)) == ['_dict', '_hash'], key_of('FrozenDict', '__slots__'), (mod, cls),
+  R.judge(len(slots) == 1, len(slots) == 1 and sorted(ast.literal_eval(slots[0].value)) == ['_dict', '_hash'], key_of('FrozenDict', '__slots__'), (mod, cls),
           "FrozenDict.__slots__ must be exactly ('_dict', '_hash'): no instance __dict__ to hang mutable state on")
   bases = [astu.dotted(b.value if isinstance(b, ast.Subscript) else b) for b in cls.bases]
   R.check(all(b and b.split('.')[-1] == 'Mapping' for b in bases), key_of('FrozenDict', 'bases'), (mod, cls),
           'FrozenDict must derive from Mapping only (not MutableMapping / dict), bases: %s' % bases)
   meths = mod.methods('FrozenDict')
   bad = sorted(set(meths) & {'__delitem__', 'update', 'setdefault', 'clear', 'popitem', '__ior__', '__setattr__'})
-  R.check(not bad, key_of('FrozenDict', 'no mutating methods'), (mod, cls), 'FrozenDict defines mutating methods %s' % bad)
+  R.check(not bad, key_of('FrozenDict', 'no mutating methods'), (mod, cls), 'FrozenDict defines mutating methods %s' % bad, evidence=True)
   si = meths.get('__setitem__')
   R.require(si is not None, 'FrozenDict.__setitem__ vanished')
   body = astu.strip_docstring(si.node.body)
-  R.check(len(body) == 1 and isinstance(body[0], ast.Raise), key_of(si, 'raises unconditionally'), si, 'FrozenDict.__setitem__ must raise unconditionally')
+  R.judge(True, any(isinstance(x, ast.Raise) for x in ast.walk(si.node)) and not any(isinstance(x, ast.Subscript) and isinstance(x.ctx, ast.Store) for x in ast.walk(si.node)), key_of(si, 'raises unconditionally'), si, 'FrozenDict.__setitem__ must raise and never store')
   # stores to _dict / _hash
   n_st = 0
   for m in (repo.mods_with('._dict', '._hash') if R.ctx.tier == 'thorough' else [mod]):
@@ -173,7 +207,7 @@ def r2(R, repo):
               continue
           n_st += 1
           allowed = {'_dict': ('FrozenDict.__init__',), '_hash': ('FrozenDict.__init__', 'FrozenDict.__hash__')}[n.attr]
-          R.check(m is mod and f.qual in allowed, key_of(f, 'store to .%s' % n.attr), (f, n),
+          R.check(m is mod and f.qual in allowed, key_of(f, 'store to .%s' % n.attr), (f, n), evidence=True, msg_fail=
                   '`%s` is written outside %s' % (astu.src(n), allowed))
         # subscript stores / deletes / mutator calls on ._dict
         if isinstance(n, ast.Subscript) and isinstance(n.ctx, (ast.Store, ast.Del)) and isinstance(n.value, ast.Attribute) and n.value.attr == '_dict' and m is mod:
@@ -202,13 +236,16 @@ def r2(R, repo):
     inner = augs[0].value.args[0]
     tn = astu.names_stored(loops[0].target)
     ok = tn <= astu.names_loaded(inner) and len(tn) == 2
-  R.check(ok, key_of(h, 'commutative fold over hash((key, value))'), h,
+  order_dep = [n for n in astu.body_walk(h.node) if isinstance(n, ast.Assign) and isinstance(n.value, ast.Call) and astu.call_name(n.value) == 'hash' and
+               any(isinstance(t_, ast.Name) and t_.id in astu.names_loaded(n.value) for t_ in n.targets) and any(n is x for lp_ in loops for x in ast.walk(lp_))]
+  R.judge(ok or bool(order_dep) or (len(augs) == 1 and len(loops) == 1), ok, key_of(h, 'commutative fold over hash((key, value))'), h,
           'FrozenDict.__hash__ must combine hash((key, value)) of every item with a commutative operator (insertion order must not matter)')
 
 
 def check_unfreeze(R, repo):
   """unfreeze() builds fresh containers on every branch (shared by C15.R3 and C01.R1)."""
   mod = repo.mod(FD)
+  _MOD['fd'] = mod
   un = mod.func('unfreeze')
   cu = cfg_of(un)
   p = astu.params(un.node)[0]
@@ -233,32 +270,39 @@ def check_unfreeze(R, repo):
       rec = [x for x in astu.func_calls(un) if astu.call_name(x) == 'unfreeze']
       if not rec:
         ok, msg = False, 'dict branch must unfreeze nested values recursively'
-  R.check(ok, key_of(un, 'fresh containers on every branch'), un, 'unfreeze: ' + msg)
+  R.check(ok, key_of(un, 'fresh containers on every branch'), un, 'unfreeze: ' + msg, evidence=True)
 
 
 @rule('C15.R3', 'K7', 9, 'construction and every copying API build fresh containers')
 def r3(R, repo):
   mod = repo.mod(FD)
+  _MOD['fd'] = mod
   init = mod.func('FrozenDict.__init__')
   c = cfg_of(init)
   flag = '__unsafe_skip_copy__'
-  R.check(astu.is_const(astu.param_default(init.node, flag), False), key_of(init, 'skip-copy flag defaults to False'), init,
+  R.check(astu.is_const(astu.param_default(init.node, flag), False), key_of(init, 'skip-copy flag defaults to False'), init, evidence=flag in astu.params(init.node), msg_fail=
           'the private skip-copy flag must default to False')
-  xs = types.single_def(init.node, 'xs')
-  R.check(isinstance(xs, ast.Call) and astu.call_name(xs) == 'dict', key_of(init, 'top level copied by dict(...)'), init,
+  xs = None
+  for s_ in [n for n in c.nodes if isinstance(n.stmt, ast.Assign) and astu.src(n.stmt.targets[0]) == 'self._dict']:
+    v_ = s_.stmt.value
+    v_ = v_.args[0] if isinstance(v_, ast.Call) and astu.call_name(v_) == '_prepare_freeze' and v_.args else v_
+    if isinstance(v_, ast.Name):
+      xs = types.single_def(init.node, v_.id) or xs
+  R.judge(xs is not None, isinstance(xs, ast.Call) and astu.call_name(xs) == 'dict', key_of(init, 'top level copied by dict(...)'), init,
           'FrozenDict.__init__ must copy the top-level mapping with dict(*args, **kwargs)')
   stores = [n for n in c.nodes if isinstance(n.stmt, ast.Assign) and astu.src(n.stmt.targets[0]) == 'self._dict']
   tests = [n for n in c.nodes if n.kind == 'if' and flag in astu.names_loaded(n.ast)]
-  R.require(len(stores) == 2 and len(tests) == 1, 'FrozenDict.__init__: two stores to self._dict selected by the skip flag expected')
+  R.require(len(stores) >= 1 and len(tests) == 1, 'FrozenDict.__init__: stores to self._dict selected by the skip flag expected')
   t = tests[0]
-  pos = 'T' if astu.src(t.ast) == flag else 'F'
+  is_flag = lambda e: isinstance(e, ast.Name) and e.id == flag
+  pf_nodes = [n for n in c.nodes if n.stmt is not None and n.kind == 'stmt' and any(isinstance(x, ast.Call) and astu.call_name(x) == '_prepare_freeze' for x in ast.walk(n.stmt))]
+  flag_edges = evid.est_edges(c, is_flag)
   for s in stores:
-    raw = not (isinstance(s.stmt.value, ast.Call) and astu.call_name(s.stmt.value) == '_prepare_freeze')
-    if raw:
-      R.check(c.edge_guarded(s, t, pos), key_of(init, 'raw store only under the skip flag'), (init, s.stmt),
-              'the un-copied store `%s` must happen only when the private skip flag is set' % astu.short(s.stmt))
-    else:
-      R.check(astu.src(s.stmt.value.args[0]) == 'xs', key_of(init, 'deep-frozen store'), (init, s.stmt), 'nested dicts must be copied by _prepare_freeze(xs)')
+    if not c.reachable(s):
+      continue
+    ok = c.must_pass(c.entry, s, pf_nodes, avoid_edges=flag_edges) or s not in c.reach([c.entry], avoid_edges=flag_edges)
+    R.judge(bool(flag_edges), ok, key_of(init, 'raw store only under the skip flag'), (init, s.stmt),
+            'without the private skip flag `%s` must store a dict that went through _prepare_freeze (nested dicts copied): %s' % (astu.short(s.stmt), c.witness(c.entry, s, avoid=pf_nodes, avoid_edges=flag_edges)))
   pf = mod.func('_prepare_freeze')
   comps = [n for n in astu.body_walk(pf.node) if isinstance(n, ast.DictComp)]
   ok = len(comps) == 1 and isinstance(comps[0].value, ast.Call) and astu.call_name(comps[0].value) == '_prepare_freeze' and \
@@ -289,7 +333,10 @@ def r3(R, repo):
     if ok:
       taken = {v: (_truth(dt[0].ast, v) if lab == 'T' else not _truth(dt[0].ast, v)) for v in ('empty', 'nonempty')}
       ok = not any(taken.values())   # a dict (empty or not) is never returned as is
-  R.check(ok, key_of(pf, 'rebuilds every nested dict; returns only non-dicts as is'), pf,
+  p0_ = astu.params(pf.node)[0]
+  shallow = [n for n in cc.nodes if isinstance(n.stmt, ast.Return) and isinstance(n.stmt.value, ast.Call) and astu.call_name(n.stmt.value) in ('dict', 'copy.copy') and [astu.src(a) for a in n.stmt.value.args] == [p0_]]
+  recognised = (len(comps) == 1 and len(rets) == 1 and len(dt) == 1) or bool(shallow)
+  R.judge(recognised, ok and not shallow, key_of(pf, 'rebuilds every nested dict; returns only non-dicts as is'), pf,
           '_prepare_freeze must rebuild every nested dict recursively and may return its argument unchanged only when it is not a dict')
   check_unfreeze(R, repo)
   # module-level copy / pop: dict branch works on a deep copy
@@ -302,24 +349,26 @@ def r3(R, repo):
     muts = [x for x in astu.func_calls(g) if isinstance(x.func, ast.Attribute) and x.func.attr in MUTATORS and
             not (fdt and all(cg.edge_guarded(nn, fdt[0], 'T') for nn in cg.nodes_for(x)))]  # FrozenDict.pop/copy are functional
     ok = ok and all(astu.src(x.func.value) == 'new_dict' for x in muts)
-    R.check(ok, key_of(g, 'mutates only a deep copy'), g, 'module-level %s must copy the dict (tree_map identity) and mutate only the copy' % name)
+    R.judge(nd is not None, ok, key_of(g, 'mutates only a deep copy'), g, 'module-level %s must copy the dict (tree_map identity) and mutate only the copy' % name)
   pm = mod.func('FrozenDict.pop')
   nd = types.single_def(pm.node, 'new_dict')
   muts = [x for x in astu.func_calls(pm) if isinstance(x.func, ast.Attribute) and x.func.attr in MUTATORS]
   ok = isinstance(nd, ast.Call) and astu.call_name(nd) == 'dict' and all(astu.src(x.func.value) == 'new_dict' for x in muts)
   ctor = [x for x in astu.func_calls(pm) if astu.src(x.func) in ('type(self)', 'FrozenDict') and [astu.src(a) for a in x.args] == ['new_dict'] and not x.keywords]
-  R.check(ok and len(ctor) == 1, key_of(pm, 'pops from a copy and re-freezes'), pm, 'FrozenDict.pop must remove the key from a copy and build a new FrozenDict (with copying) from it')
+  R.judge(nd is not None and bool(muts), ok and len(ctor) == 1, key_of(pm, 'pops from a copy and re-freezes'), pm, 'FrozenDict.pop must remove the key from a copy and build a new FrozenDict (with copying) from it')
   cp = mod.func('FrozenDict.copy')
   rets = [n for n in astu.body_walk(cp.node) if isinstance(n, ast.Return)]
   ok = len(rets) == 1 and isinstance(rets[0].value, ast.Call) and astu.src(rets[0].value.func) in ('type(self)', 'FrozenDict') and not rets[0].value.keywords \
-      and isinstance(rets[0].value.args[0], ast.Dict)
-  R.check(ok, key_of(cp, 'new FrozenDict from a fresh dict display'), cp, 'FrozenDict.copy must build a new FrozenDict (copying constructor) from a fresh dict')
+      and (isinstance(rets[0].value.args[0], (ast.Dict, ast.DictComp)) or (isinstance(rets[0].value.args[0], ast.Call) and astu.call_name(rets[0].value.args[0]) == 'dict') or
+           (isinstance(rets[0].value.args[0], ast.Name) and isinstance(types.single_def(cp.node, rets[0].value.args[0].id), (ast.Dict, ast.DictComp, ast.Call))))
+  raw_self = len(rets) == 1 and (astu.src(rets[0].value) == 'self' or (isinstance(rets[0].value, ast.Call) and any(astu.kwarg(rets[0].value, '__unsafe_skip_copy__') is not None for _ in [0])))
+  R.judge(ok or raw_self, ok, key_of(cp, 'new FrozenDict from a fresh dict display'), cp, 'FrozenDict.copy must build a new FrozenDict (copying constructor) from a fresh dict')
   rd = mod.func('FrozenDict.__reduce__')
   R.check('unfreeze' in astu.src(rd.node), key_of(rd, 'pickles an unfrozen copy'), rd, '__reduce__ must pickle an unfrozen copy')
   it = mod.func('FrozenDict.items')
   ys = [n for n in astu.body_walk(it.node) if isinstance(n, (ast.Yield, ast.Return))]
   ok = len(ys) == 1 and isinstance(ys[0], ast.Yield) and isinstance(ys[0].value, ast.Tuple) and astu.src(ys[0].value.elts[1]).startswith('self[')
-  R.check(ok, key_of(it, 'values obtained through __getitem__'), it, 'FrozenDict.items must yield values through self[key] (so nested dicts are wrapped)')
+  R.judge(len(ys) == 1 and isinstance(ys[0], ast.Yield) and isinstance(ys[0].value, ast.Tuple) and len(ys[0].value.elts) == 2, ok, key_of(it, 'values obtained through __getitem__'), it, 'FrozenDict.items must yield values through self[key] (so nested dicts are wrapped)')
   for vname, view in (('values', 'FrozenValuesView'), ('keys', 'FrozenKeysView')):
     g = mod.func('FrozenDict.' + vname)
     rets = [n for n in astu.body_walk(g.node) if isinstance(n, ast.Return)]
@@ -339,7 +388,7 @@ def r4(R, repo):
       c.edge_guarded(stores[0], tests[0], 'T' if 'not in' in astu.src(tests[0].ast) else 'F')
   dc = [n for n in c.nodes if isinstance(n.stmt, ast.Assign) and 'dataclasses.dataclass(**kwargs)' in astu.src(n.stmt.value)]
   ok = ok and len(dc) == 1 and c.dominated(dc[0], [tests[0]])
-  R.check(ok, key_of(f, 'frozen=True unless the user passes frozen'), f,
+  R.judge(len(stores) == 1 and len(tests) == 1 and len(dc) == 1, ok, key_of(f, 'frozen=True unless the user passes frozen'), f,
           'struct.dataclass must default frozen=True before calling dataclasses.dataclass(**kwargs)')
   # field partition
   loops = [n for n in astu.body_walk(f.node) if isinstance(n, ast.For) and 'dataclasses.fields' in astu.src(n.iter)]
@@ -352,7 +401,7 @@ def r4(R, repo):
   ok = len(apps) == 2 and all(s in apps or head not in c.reach([s], avoid=apps) for s in firsts) and \
       not any(b in c.reach([a], avoid=[head]) for a in apps for b in apps)
   lists = {astu.src(a.stmt.value.func.value): a for a in apps}
-  R.check(ok and len(lists) == 2, key_of(f, 'each field appended to exactly one of data/meta'), (f, lp),
+  R.judge(len(apps) == 2 and len(lists) == 2, ok, key_of(f, 'each field appended to exactly one of data/meta'), (f, lp),
           'every dataclass field must be put in exactly one of the data-field / static-field lists')
   flagdef = [n for n in astu.body_walk(lp) if isinstance(n, ast.Call) and astu.call_tail(n) == 'get' and 'metadata' in astu.src(n.func)]
   ok = len(flagdef) == 1 and astu.const_str(flagdef[0].args[0]) == 'pytree_node' and astu.is_const(flagdef[0].args[1], True)
@@ -364,7 +413,7 @@ def r4(R, repo):
       if c.edge_guarded(a, tests[0], 'T'):
         data_list = name
   meta_list = [n for n in lists if n != data_list]
-  R.check(ok and data_list is not None, key_of(f, "metadata.get('pytree_node', True) selects the data list"), (f, lp),
+  R.judge(len(flagdef) == 1 and len(flagdef[0].args) == 2 and data_list is not None, ok and data_list is not None, key_of(f, "metadata.get('pytree_node', True) selects the data list"), (f, lp),
           "fields are data unless metadata 'pytree_node' is false (default True)")
   reg = [x for x in astu.func_calls(f) if astu.call_name(x) == 'jax.tree_util.register_dataclass']
   R.require(len(reg) == 1, 'register_dataclass call not found')
@@ -372,7 +421,7 @@ def r4(R, repo):
   kw = {k.arg: astu.src(k.value) for k in reg[0].keywords}
   d = args[1] if len(args) > 1 else kw.get('data_fields')
   m_ = args[2] if len(args) > 2 else kw.get('meta_fields')
-  R.check(data_list is not None and d == data_list and meta_list and m_ == meta_list[0] and args[0] == 'data_clz', key_of(f, 'register_dataclass(cls, data, meta)'), (f, reg[0]),
+  R.judge(data_list is not None and bool(meta_list) and {d, m_} == {data_list, meta_list[0]}, data_list is not None and d == data_list and meta_list and m_ == meta_list[0], key_of(f, 'register_dataclass(cls, data, meta)'), (f, reg[0]),
           'register_dataclass must receive the pytree-node fields as data_fields and the others as meta_fields (got data=%s meta=%s)' % (d, m_))
   rp = mod.func('dataclass.replace')
   rets = [n for n in astu.body_walk(rp.node) if isinstance(n, ast.Return)]
@@ -380,11 +429,18 @@ def r4(R, repo):
           'replace must be dataclasses.replace(self, **updates): a new instance, only the named fields changed')
   fld = mod.func('field')
   ok = "'pytree_node': pytree_node" in astu.src(fld.node) and astu.is_const(astu.param_default(fld.node, 'pytree_node'), True)
-  R.check(ok, key_of(fld, "stores the flag under metadata['pytree_node']"), fld, "struct.field must record its flag under the metadata key 'pytree_node' that dataclass() reads")
+  inplace = [n for n in astu.body_walk(fld.node) if isinstance(n, ast.Subscript) and isinstance(n.ctx, (ast.Store, ast.Del)) and isinstance(n.value, ast.Name) and
+             any(evid.raw3(fld, n.value, p_) == evid.RAW for p_ in astu.params(fld.node))] + \
+            [x for x in astu.func_calls(fld) if isinstance(x.func, ast.Attribute) and x.func.attr in MUTATORS and isinstance(x.func.value, ast.Name) and any(evid.raw3(fld, x.func.value, p_) == evid.RAW for p_ in astu.params(fld.node))]
+  if inplace:
+    R.fail(key_of(fld, "stores the flag under metadata['pytree_node']"), (fld, inplace[0]), 'struct.field writes into the mapping its caller passed (`%s`): a metadata dict shared between several fields then carries the pytree_node flag of the last field declared, '
+           'so data fields are registered as static (or vice versa)' % astu.short(astu.enclosing_stmt(inplace[0])))
+  else:
+    R.check(ok, key_of(fld, "stores the flag under metadata['pytree_node']"), fld, "struct.field must record its flag under the metadata key 'pytree_node' that dataclass() reads")
   for nm in ('dataclass.to_state_dict', 'dataclass.from_state_dict'):
     g = mod.func(nm)
     its = [astu.src(n.iter) for n in astu.body_walk(g.node) if isinstance(n, (ast.For, ast.comprehension))]
-    R.check(its == [data_list], key_of(g, 'iterates data fields only'), g, '%s must iterate exactly the data fields' % nm)
+    R.judge(len(its) == 1 and data_list is not None and bool(meta_list) and its[0] in (data_list, meta_list[0]), its == [data_list], key_of(g, 'iterates data fields only'), g, '%s must iterate exactly the data fields' % nm)
   isub = mod.func('PyTreeNode.__init_subclass__')
   calls = [x for x in astu.func_calls(isub) if astu.call_name(x) == 'dataclass']
   R.check(len(calls) == 1 and astu.src(calls[0].args[0]) == 'cls' and astu.has_star_kwargs(calls[0]), key_of(isub, 'dataclass(cls, **kwargs)'), isub,
